@@ -11,6 +11,7 @@
              "ext2fs_super_and_bgd_loc2 is a stub that reports exactly the locations the format prescribes (specs/spec_geom.h; the real function is proved against the same spec in geometry/super_and_bgd_loc2); the first block of the group is an oracle value constrained by A1 (group 0 starts at s_first_data_block) and A2 (later groups start at or after s_first_data_block + s_blocks_per_group)",
              "the bitmap (gen_bitmap64.c: ext2fs_mark_generic_bmap, ext2fs_mark_block_bitmap_range2) is a ghost bit at ONE arbitrary block verif_k, any initial value; the stubs CHECK that every mark lies below the block count and goes to the bitmap passed in",
              "ext2fs_blocks_count and ext2fs_group_blocks_count (blknum.c) are stubs returning arbitrary values B resp. N with 0 < N <= s_blocks_per_group; call-site guarantee of ext2fs_initialize / resize2fs: the group's first block + its superblock/descriptor start lie below B (the last group is never shorter than its overhead: initialize.c retries with a smaller size otherwise)",
+             "desc_blocks <= 2^28 (fewer than 2^32 groups, at least 16 descriptors per block), so desc_blocks + s_reserved_gdt_blocks (16 bit) does not wrap",
              "the function returns int: the 'free blocks' value is stated modulo 2^32 (callers compare / subtract in unsigned arithmetic)"],
  "native": false
 }
@@ -127,6 +128,8 @@ void h_reserve_super_and_bgd(void)
 	geom_gfb[0].v = geom_gfb[1].v = geom_gfb[2].v = IN.gfirst;
 	ASSUME(geom_gfb_axioms(IN.fdb, IN.bpg));
 	ASSUME(IN.N > 0 && IN.N <= IN.bpg);
+	/* format: fewer than 2^32 groups, at least 16 descriptors per block */
+	ASSUME(IN.desc_blocks <= (1u << 28));
 	/* call sites: the group exists, and its superblock copy + first descriptor block lie inside the filesystem */
 	ASSUME(IN.gfirst < IN.B && IN.B - IN.gfirst > 2);
 
